@@ -1,5 +1,6 @@
 """C03 -- exhaustive search returns the best-scoring feasible designs, best first."""
 from . import searchfam, search_oracles as so
+from . import common
 from .c01 import RULE
 
 
@@ -25,7 +26,7 @@ def budget_bites(ck, tier):
   (so that the pruning and the two budget screens are actually exercised)."""
   from . import search
   out = []
-  for k in range(50 if tier == 'quick' else 800):
+  for k in range(common.sz(tier, 50, 800)):
     c = search.gen_case(ck.seed * 31 + 70000 + k, tier)
     c['want_budget'] = True
     c['want_share'] = k % 5 == 0
